@@ -15,6 +15,8 @@ import (
 	"github.com/ethereum/go-ethereum/common/hexutil"
 	"math/big"
 	"os"
+
+	sdkflags "github.com/cosmos/cosmos-sdk/client/flags"
 	"strconv"
 	"strings"
 	"testing"
@@ -386,10 +388,15 @@ func TestEngineReexec(t *testing.T) {
 		exported, err := appA.ExportAppStateAndValidators(false, nil, nil)
 		require.NoError(t, err)
 		chainID := itutil.IntegrationTestChain1.CosmosChainId
-		newApp := func(db sdkdb.DB) *chainapp.Evermint {
+		newAppWith := func(db sdkdb.DB, opts simtestutil.AppOptionsMap, bopts ...func(*baseapp.BaseApp)) *chainapp.Evermint {
+			m := simtestutil.AppOptionsMap{sdkflags.FlagHome: chainapp.DefaultNodeHome}
+			for k, v := range opts {
+				m[k] = v
+			}
 			return chainapp.NewEvermint(log.NewNopLogger(), db, nil, true, map[int64]bool{}, chainapp.DefaultNodeHome, 0, s.EncodingConfig,
-				simtestutil.NewAppOptionsWithFlagHome(chainapp.DefaultNodeHome), baseapp.SetChainID(chainID))
+				m, append([]func(*baseapp.BaseApp){baseapp.SetChainID(chainID)}, bopts...)...)
 		}
+		newApp := func(db sdkdb.DB) *chainapp.Evermint { return newAppWith(db, nil) }
 		dbR := sdkdb.NewMemDB()
 		R1 := newApp(dbR)
 		cp := exported.ConsensusParams
@@ -404,6 +411,7 @@ func TestEngineReexec(t *testing.T) {
 			require.NoError(t, err)
 			return res, app.LastCommitID().Hash
 		}
+		var restartCreated []common.Address
 		mkTxs := func(app *chainapp.Evermint, h int64) [][]byte {
 			ctx := app.NewUncachedContext(false, tmproto.Header{ChainID: chainID, Height: h - 1, Time: t0}).WithChainID(chainID)
 			var txs [][]byte
@@ -421,6 +429,19 @@ func TestEngineReexec(t *testing.T) {
 				bz, _ := c.buildEthTx(ethTxArgs{from: w, typ: 2, nonce: acc.GetSequence(), to: &to, value: big.NewInt(int64(1 + r.Intn(50))), gas: 21000, feeCap: price, tip: big.NewInt(1)})
 				txs = append(txs, bz)
 			}
+			if w := ws[3]; true { // a contract creation (and, once it exists, a call of the created logger) from a wallet of its own
+				if acc := app.AccountKeeper.GetAccount(ctx, w.GetCosmosAddress()); acc != nil {
+					if r.Bool() || len(restartCreated) == 0 {
+						bz, _ := c.buildEthTx(ethTxArgs{from: w, typ: r.Intn(3), nonce: acc.GetSequence(), data: initCode(codeLogger), gas: 400_000, gasPrice: price, feeCap: price, tip: big.NewInt(1)})
+						txs = append(txs, bz)
+						restartCreated = append(restartCreated, crypto.CreateAddress(w.GetEthAddress(), acc.GetSequence()))
+					} else {
+						to := restartCreated[r.Intn(len(restartCreated))]
+						bz, _ := c.buildEthTx(ethTxArgs{from: w, typ: 2, nonce: acc.GetSequence(), to: &to, data: []byte{1, 2, 3}, gas: 200_000, feeCap: price, tip: big.NewInt(1)})
+						txs = append(txs, bz)
+					}
+				}
+			}
 			return txs
 		}
 		h := exported.Height
@@ -428,14 +449,31 @@ func TestEngineReexec(t *testing.T) {
 			block(R1, h, mkTxs(R1, h))
 			h++
 		}
-		clone := sdkdb.NewMemDB()
-		it, err := dbR.Iterator(nil, nil)
-		require.NoError(t, err)
-		for ; it.Valid(); it.Next() {
-			require.NoError(t, clone.Set(append([]byte{}, it.Key()...), append([]byte{}, it.Value()...)))
+		cloneDB := func() sdkdb.DB {
+			clone := sdkdb.NewMemDB()
+			it, err := dbR.Iterator(nil, nil)
+			require.NoError(t, err)
+			for ; it.Valid(); it.Next() {
+				require.NoError(t, clone.Set(append([]byte{}, it.Key()...), append([]byte{}, it.Value()...)))
+			}
+			_ = it.Close()
+			return clone
 		}
-		_ = it.Close()
-		R2 := newApp(clone)
+		R2 := newApp(cloneDB())
+		// R3: the same database again, opened by a node whose operator chose other (valid) node-local settings: the EVM
+		// tracer of app.toml, the node's own minimum gas price, the cap on gas wanted, pruning and cache sizes
+		type nodeCfg struct {
+			name string
+			app  *chainapp.Evermint
+		}
+		var R3 []nodeCfg
+		for _, tr := range []string{"access_list", "struct", "json"} {
+			if tr == "json" && os.Getenv("VERIF_TRACER_JSON") == "" {
+				continue // writes every opcode to stderr; behaviourally the same hook set as "struct"
+			}
+			R3 = append(R3, nodeCfg{"evm.tracer=" + tr, newAppWith(cloneDB(), simtestutil.AppOptionsMap{"evm.tracer": tr, "evm.max-tx-gas-wanted": uint64(100_000), "json-rpc.gas-cap": uint64(1), "iavl-cache-size": 1},
+				baseapp.SetMinGasPrices("7000000000"+c.evmDenom))})
+		}
 		if R1.LastBlockHeight() != R2.LastBlockHeight() || !bytes.Equal(R1.LastCommitID().Hash, R2.LastCommitID().Hash) {
 			p.Oracle("C01-restart", "an instance opened on a copy of the database does not start from the same state (height %d / %d)", R1.LastBlockHeight(), R2.LastBlockHeight())
 		}
@@ -449,6 +487,28 @@ func TestEngineReexec(t *testing.T) {
 			p.Count("restart-block")
 			if !bytes.Equal(hash1, hash2) || !bytes.Equal(b1, b2) {
 				p.Oracle("C01-restart", "block %d: the instance restarted on the same database computes a different app hash or result than the one that kept running (%x vs %x, results equal: %v)", h, hash1, hash2, bytes.Equal(b1, b2))
+				break
+			}
+			bad := false
+			for _, n3 := range R3 {
+				res3, hash3 := block(n3.app, h, txs)
+				b3, _ := res3.Marshal()
+				p.Count("nodecfg-block")
+				if !bytes.Equal(hash1, hash3) || !bytes.Equal(b1, b3) {
+					where := ""
+					for k := range res1.TxResults {
+						x1, _ := res1.TxResults[k].Marshal()
+						x3, _ := res3.TxResults[k].Marshal()
+						if !bytes.Equal(x1, x3) {
+							where = fmt.Sprintf("tx %d: code %d gasUsed %d log %q  vs  code %d gasUsed %d log %q", k, res1.TxResults[k].Code, res1.TxResults[k].GasUsed, res1.TxResults[k].Log, res3.TxResults[k].Code, res3.TxResults[k].GasUsed, res3.TxResults[k].Log)
+							break
+						}
+					}
+					p.Oracle("C01-nodecfg", "block %d: a node with node-local setting %s computes a different app hash or result (%x vs %x) %s", h, n3.name, hash1, hash3, where)
+					bad = true
+				}
+			}
+			if bad {
 				break
 			}
 			h++
